@@ -60,8 +60,27 @@ func drawC08(t *rapid.T) *c08Scenario {
 	k.Mutations = false
 	d := drawDisrupt(t, k)
 	crafted := dpct(t, 35, "c08MultiReplace")
+	twoReplacements := false
 	if crafted {
 		c08MultiReplaceWorld(t, d)
+		// variant: drifted nodes whose two pods no longer fit one node of the only type still offered - every Drift
+		// command needs TWO replacements, which then initialise one at a time
+		if twoReplacements = dpct(t, 45, "c08TwoReplacements"); twoReplacements {
+			w := d.World
+			w.Catalog[0].Offerings[0].Available = false
+			for i := range w.Nodes {
+				d.NodeX[w.Nodes[i].Name] = dNodeX{Drifted: true, DriftedAgoSec: 600}
+			}
+			for _, p := range w.Bound {
+				p.Spec.Containers[0].Resources.Requests[corev1.ResourceCPU] = resource.MustParse("5")
+			}
+			n0 := len(w.Bound)
+			for i := 0; i < n0; i++ {
+				q := w.Bound[i].DeepCopy()
+				q.Name, q.UID = fmt.Sprintf("bound-%02d", n0+i), types.UID(fmt.Sprintf("bound-uid-%02d", n0+i))
+				w.Bound = append(w.Bound, q)
+			}
+		}
 	}
 	// the history: commands are started, then replacements initialize, vanish or stall, the clock moves (up to past the
 	// command timeout), the controllers restart, nodes finish terminating
@@ -80,6 +99,10 @@ func drawC08(t *rapid.T) *c08Scenario {
 		// a failure-oriented prefix: the command starts, possibly loses a candidate, then its replacement fails one way
 		// or another (or initializes), then the queue looks at it; the random tail follows
 		prefix := []dStep{{Kind: "disrupt"}}
+		if twoReplacements {
+			// one of the two replacements is ready when the queue looks, the other is not (or vanishes) when it looks again
+			prefix = append(prefix, dStep{Kind: "initOne"}, dStep{Kind: "queue"})
+		}
 		if rapid.Bool().Draw(t, "c08mrCandidateGone") {
 			prefix = append(prefix, dStep{Kind: "candidateGone"})
 		}
@@ -147,6 +170,7 @@ type c08Result struct {
 	rolledBackByQueue                                             int
 	multiCandidateReplace                                         int
 	overlapStarts                                                 int
+	multiReplacement                                              int
 }
 
 func c08Err(kind int, c *sim.Call) error {
@@ -450,6 +474,9 @@ func runC08(s *c08Scenario, faultIdx, kind int) *c08Result {
 		res.started++
 		if len(rec.replacements) > 0 {
 			res.withReplacement++
+			if len(rec.replacements) > 1 {
+				res.multiReplacement++
+			}
 			if len(rec.candidates) > 1 {
 				res.multiCandidateReplace++
 			}
@@ -559,6 +586,7 @@ func execC08(s *c08Scenario, c *ev.Ctx) {
 	c.ClassIf(base.withReplacement > 0, "command_with_replacement")
 	c.ClassIf(base.multiCandidateReplace > 0, "multi_candidate_command_with_replacement")
 	c.ClassIf(base.overlapStarts > 0, "overlapping_command_offered_to_start")
+	c.ClassIf(base.multiReplacement > 0, "command_with_two_or_more_replacements")
 	c.ClassIf(base.deletes > 0, "candidates_deleted")
 	c.ClassIf(base.unsuccessful > 0, "action_ended_without_removing_candidate")
 	c.ClassIf(base.failedStarts > 0, "start_failed")
